@@ -2,4 +2,4 @@
    Scans.v (what the level-0 scans compute), Refine.v (invariant, per-operation
    refinement, the theorems) and Lanes.v / LanesZset.v (stage 2: lane search = level-0 scan); this file gathers them for Properties.v. *)
 From FV Require Export C11.Sorted C11.Scans C11.Refine C11.Lanes C11.LanesZset
-  C11.LaneHeap C11.LaneInv C11.LaneSearch C11.LaneLoops C11.LaneInsert C11.LaneDelete C11.LaneSim C11.LaneQuery.
+  C11.LaneHeap C11.LaneInv C11.LaneSearch C11.LaneLoops C11.LaneInsert C11.LaneDelete C11.LaneSim C11.LaneQuery C11.Exact.
